@@ -7,6 +7,7 @@ namespace vf {
 struct Caps {
   bool bools = true;
   bool arrays = false;
+  bool array_heavy = false; // most statements are array statements (C14 engine)
   bool regions = false;
   bool bitwise = true;
   bool divs = true;
@@ -245,10 +246,38 @@ struct GenCtx {
           continue;
         return s;
       }
-      if (k >= 16 && k <= 18 && caps.arrays && !arrs.empty()) {
+      if (((k >= 16 && k <= 18) || (caps.array_heavy && k >= 6 && k <= 15 && r.coin())) && caps.arrays && !arrs.empty()) {
         int a = arrs[r.below(arrs.size())];
-        int ak = r.below(8);
+        int ak = r.below(9);
         int64_t esz = arr_esz[a];
+        if (single_cell.count(a)) { // an array of exactly one cell: strong updates are legitimate
+          if (ak <= 3) {
+            s.kind = S_ARR_STORE;
+            s.lhs = a;
+            s.k = esz;
+            s.e1 = LinExp(0);
+            s.e3 = r.coin() ? LinExp(r.range(-5, 20)) : LinExp::var(any_int());
+            s.flag = r.chance(3, 4);
+          } else {
+            s.kind = S_ARR_LOAD;
+            s.lhs = assignable_int();
+            s.a = a;
+            s.k = esz;
+            s.e1 = LinExp(0);
+          }
+          return s;
+        }
+        if (ak == 8) {
+          s.kind = S_ARR_STORE_RANGE;
+          s.lhs = a;
+          s.k = esz;
+          int64_t lo = r.range(0, 4);
+          s.e1 = LinExp(esz * lo);
+          s.e2 = LinExp(esz * (lo + r.range(0, 4)));
+          if (!idxvars.empty() && r.chance(1, 3)) s.e2 = LinExp::var(idxvars[r.below(idxvars.size())], esz); // symbolic upper end (may be below the lower end: empty range)
+          s.e3 = r.coin() ? LinExp(r.range(-5, 20)) : LinExp::var(any_int());
+          return s;
+        }
         if (ak == 0) {
           s.kind = S_ARR_INIT;
           s.lhs = a;
@@ -297,6 +326,7 @@ struct GenCtx {
     return s;
   }
   std::map<int, int64_t> arr_esz;
+  std::set<int> single_cell; // arrays that only ever have the cell at offset 0
   std::vector<int> idxvars;
 
   // ---- CFG skeleton -------------------------------------------------------
@@ -514,12 +544,13 @@ inline void gen_vars(GenCtx &g, const GenOpts &o, const std::string &prefix = ""
     for (int i = 0; i < nb; ++i) g.bools.push_back(g.new_var(prefix + "p", T_BOOL, 1));
   }
   if (g.caps.arrays) {
-    int na = 1 + r.below(2);
+    int na = 1 + r.below(g.caps.array_heavy ? 3 : 2);
     for (int i = 0; i < na; ++i) {
       int a = g.new_var(prefix + "A", T_ARR, 0);
       g.arrs.push_back(a);
       // word-level assumption: the element size is the byte width of the values stored (32-bit ints)
       g.arr_esz[a] = 4;
+      if (g.caps.array_heavy && i > 0 && r.chance(1, 3)) g.single_cell.insert(a);
     }
   }
 }
